@@ -25,8 +25,8 @@ LEVEL = "exploration"
 MOD = "git.torproject.org/pluggable-transports/snowflake.git/v2/"
 
 # properties whose quick drivers are re-run under the race detector: (id, extra args)
-SUBCHECKS_QUICK = [("C17", []), ("C15", []), ("C05", []), ("C16", [])]
-SUBCHECKS_THOROUGH = [("C17", []), ("C15", []), ("C05", []), ("C16", []), ("C01", []), ("C18", []), ("C06", [])]
+SUBCHECKS_QUICK = [("C17", []), ("C15", []), ("C05", []), ("C16", []), ("C03", ["--only", "bridgelist"])]
+SUBCHECKS_THOROUGH = [("C17", []), ("C15", []), ("C05", []), ("C16", []), ("C03", ["--only", "bridgelist"]), ("C01", []), ("C18", []), ("C06", [])]
 
 
 def parse_races(text):
